@@ -593,6 +593,11 @@ func runRoots(t *testing.T, rep *vh.Report, tl *tally, w *c12.TWorld, m mat, c C
 		synctest.Wait()
 		if late {
 			tl.add("roots/returned-only-after-cleanup")
+			if st.CtxAt >= 0 {
+				// every request was answered or has failed with the context's error, and still the call had not returned
+				rep.Violate("temporal:roots:no-return-after-context-ended", desc+": the context had ended and every goroutine had come to rest, yet GetAcceptedRoots "+
+					"had not returned (it only did once the harness answered the requests it had kept waiting)", ctxt)
+			}
 		}
 		if pval != nil {
 			rep.Violate("panic:temporal:GetAcceptedRoots:"+lbl, fmt.Sprintf("%s panicked: %v", desc, pval), ctxt)
@@ -746,38 +751,45 @@ func finish(t *testing.T, rep *vh.Report, tl *tally, cases []Case) {
 	}
 }
 
-// TestSubmit replays the submission cases and sequences (VERIF_TCASES: one Case per line).  Every case runs on every
-// key assignment; VERIF_UNITS chooses the materializations (1s: the instants next to a bound are one second away).
+// TestSubmit replays the submission cases and sequences.  VERIF_TCASES: "name=path;name=path" (one Case per line in
+// each file, one report per name) or a single path.  Every case runs on every key assignment and, when it is a single
+// answer, under both materializations (1 s: the instants next to a bound are one second away from it; 1 h).
 func TestSubmit(t *testing.T) {
-	cases := load(t, "VERIF_TCASES")
-	name := os.Getenv("VERIF_TNAME")
-	if name == "" {
-		name = "c12t-submit"
+	spec := os.Getenv("VERIF_TCASES")
+	if spec == "" {
+		t.Skip("VERIF_TCASES not set")
 	}
-	rep := vh.NewReport(name, "every (shard list, NotAfter instant, chain, first-element form, per-shard answer script) of TemporalClient.tla replayed into "+
-		"a real client.TemporalLogClient (three key assignments mixing ECDSA P-256 and RSA 2048; instants one second / one hour apart) through a RoundTripper that routes by "+
-		"host to scripted per-shard servers; requests seen by every shard compared with the specification, every returned SCT re-verified with std crypto against the "+
-		"submitted chain and the ROUTED shard's key, errors checked for status and body, per-shard back-off state and pauses compared under virtual time; "+
-		"non-trivial = distinct (key assignment, method, final answer, position of NotAfter in the routed window) with a returned SCT")
-	units := []mat{{time.Second}, {time.Hour}}
-	if os.Getenv("VERIF_UNITS") == "1s" {
-		units = units[:1]
+	if !strings.Contains(spec, "=") {
+		spec = "c12t-submit=" + spec
 	}
-	tl := &tally{m: map[string]int{}}
 	ws := theWorlds()
-	each(t, len(cases), func(t *testing.T, i int) {
-		sts := cases[i].steps()
-		for wi, w := range ws {
-			if len(sts) == 1 && len(sts[0].Answers) <= 1 {
-				for _, m := range units { // single answers are cheap: every materialization
-					runSubmissions(t, rep, tl, w, m, cases[i])
-				}
-				continue
-			}
-			runSubmissions(t, rep, tl, w, units[(i+wi)%len(units)], cases[i])
+	units := []mat{{time.Second}, {time.Hour}}
+	for _, part := range strings.Split(spec, ";") {
+		name, path, _ := strings.Cut(part, "=")
+		cases, err := vh.LoadNDJSON[Case](path)
+		if err != nil {
+			t.Fatal(err)
 		}
-	})
-	finish(t, rep, tl, cases)
+		rep := vh.NewReport(name, "every (shard list, NotAfter instant, chain, first-element form, per-shard answer script) of TemporalClient.tla replayed into "+
+			"a real client.TemporalLogClient (three key assignments mixing ECDSA P-256 and RSA 2048; instants one second / one hour apart) through a RoundTripper that routes by "+
+			"host to scripted per-shard servers; requests seen by every shard compared with the specification, every returned SCT re-verified with std crypto against the "+
+			"submitted chain and the ROUTED shard's key, errors checked for status and body, per-shard back-off state and pauses compared under virtual time; "+
+			"non-trivial = distinct (key assignment, method, final answer, position of NotAfter in the routed window) with a returned SCT")
+		tl := &tally{m: map[string]int{}}
+		each(t, len(cases), func(t *testing.T, i int) {
+			sts := cases[i].steps()
+			for wi, w := range ws {
+				if len(sts) == 1 && len(sts[0].Answers) <= 1 {
+					for _, m := range units { // single answers are cheap: every materialization
+						runSubmissions(t, rep, tl, w, m, cases[i])
+					}
+					continue
+				}
+				runSubmissions(t, rep, tl, w, units[(i+wi)%len(units)], cases[i])
+			}
+		})
+		finish(t, rep, tl, cases)
+	}
 }
 
 // TestRoots replays the GetAcceptedRoots cases (VERIF_RCASES).
